@@ -28,8 +28,8 @@ ANCHOR_FILES = ["gpytorch/models/", "gpytorch/module.py", "gpytorch/utils/memoiz
 
 QUICK_FAMS = ["default", "default_iterative", "batch_nan", "ski", "ski_dynamic_grid", "sgpr", "batch", "svgp_whitened", "svgp_unwhitened", "lmc_multitask"]
 ALL_FAMS = ["default", "default_iterative", "batch", "batch_nan", "ski", "ski_dynamic_grid", "sgpr", "svgp_whitened", "svgp_unwhitened", "svgp_meanfield", "svgp_batch_decoupled", "lmc_multitask"]
-STATE_CHANGING = {"train_step", "set_data", "set_targets", "load_sd"}
-EXACT_ALPHA = ["pred", "pred_fpv", "pred_nodetach", "pred_skipvar", "pred_eager", "pred_batch", "train_step", "set_data", "set_targets", "load_sd", "load_sd_same", "fantasy", "prior", "backward", "train_eval"]
+STATE_CHANGING = {"train_step", "set_data", "set_targets", "set_targets_strict", "load_sd"}
+EXACT_ALPHA = ["pred", "pred_fpv", "pred_nodetach", "pred_skipvar", "pred_eager", "pred_batch", "train_step", "set_data", "set_targets", "set_targets_strict", "load_sd", "load_sd_same", "fantasy", "prior", "backward", "train_eval"]
 VAR_ALPHA = ["pred", "pred_batch", "pred_skipvar", "pred_eager", "train_step", "load_sd", "load_sd_same", "prior", "backward", "train_eval"]
 VAR_FAMS = {"svgp_whitened", "svgp_unwhitened", "svgp_meanfield", "svgp_batch_decoupled", "lmc_multitask"}
 
@@ -41,7 +41,7 @@ def _alpha(fam):
     if fam in VAR_FANTASY_FAMS:
         return VAR_ALPHA + ["var_fantasy"]
     if fam == "batch_nan":
-        return ["pred", "pred_fill", "pred_fpv", "pred_nodetach", "pred_eager", "train_step", "set_targets", "load_sd", "load_sd_same", "prior", "train_eval"]
+        return ["pred", "pred_fill", "pred_fpv", "pred_nodetach", "pred_eager", "train_step", "set_targets", "set_targets_strict", "load_sd", "load_sd_same", "prior", "train_eval"]
     if fam == "lmc_multitask":
         return [o for o in VAR_ALPHA if o != "pred_batch"]  # LMC latents do not broadcast against an extra input batch (explicit error)
     return VAR_ALPHA if fam in VAR_FAMS else EXACT_ALPHA
